@@ -74,7 +74,7 @@ func c09Run(ctx *core.Ctx) {
 								}
 								draws := 1
 								if ctx.Thorough() {
-									draws = 12
+									draws = 40
 								}
 								for d := 0; d < draws; d++ {
 									for _, v := range vectors {
